@@ -531,6 +531,89 @@ fn compile(text: &str, opts: Opts) -> Option<Compiled> {
     Some(Compiled { text: text.to_string(), opts, glob, matcher })
 }
 
+/// Documented: "`{a,b}` matches `a` or `b` where `a` and `b` are arbitrary
+/// glob patterns". So a glob with one group answers like the union of the
+/// globs obtained by substituting each branch - as long as the substitution
+/// leaves every `**` a whole component in the same position class (a branch
+/// ending in `/**` only when the group ends the glob, a branch starting with
+/// `**/` only when the group starts it), which is what is generated here.
+/// Both sides are globset's own answers: a metamorphic relation, no model.
+fn alternates_case(rng: &mut Rng) -> (String, Vec<String>) {
+    const PLAIN: &[&str] = &["a", "b", "ab", "*.b", "a/*", "[ab]", "a?", "*", "a/b", ".a", "-"];
+    const SUFFIXED: &[&str] = &["a/**", "b/**", "a/*/**", "a/b/**", "*/**"];
+    const PREFIXED: &[&str] = &["**/a", "**/b", "**/*.b", "**/a/b"];
+    const INFIXED: &[&str] = &["a/**/b", "a/**/*", "b/**/a"];
+    let kind = rng.below(3);
+    let n = rng.range(2, 3);
+    let mut branches: Vec<String> = vec![];
+    for _ in 0..n {
+        let b = match (kind, rng.below(3)) {
+            (0, 0) | (0, 1) => rng.pick(SUFFIXED),
+            (1, 0) | (1, 1) => rng.pick(PREFIXED),
+            (2, 0) => rng.pick(INFIXED),
+            _ => rng.pick(PLAIN),
+        };
+        branches.push(b.to_string());
+    }
+    let pre = if kind == 1 { "" } else { rng.pick(&["", "", "a/", "*/", "b", "**/"]) };
+    let post = if kind == 0 { "" } else { rng.pick(&["", "", "/b", "/*", ".b", "/**", "a"]) };
+    let whole = format!("{}{{{}}}{}", pre, branches.join(","), post);
+    let members = branches.iter().map(|b| format!("{}{}{}", pre, b, post)).collect();
+    (whole, members)
+}
+
+fn check_alternates(rng: &mut Rng, paths: &[Vec<u8>], rep: &mut Report) {
+    let (whole, members) = alternates_case(rng);
+    let opts = Opts::from_bits(if rng.chance(1, 2) { 2 } else { rng.below(16) });
+    let w = match compile(&whole, opts) {
+        Some(c) => c,
+        None => {
+            rep.count("alternates_rejected");
+            return;
+        }
+    };
+    let ms: Vec<Compiled> = members.iter().filter_map(|m| compile(m, opts)).collect();
+    if ms.len() != members.len() {
+        rep.count("alternates_rejected");
+        return;
+    }
+    rep.count("alternate_groups_checked");
+    let mut both = (false, false);
+    for p in paths {
+        use std::os::unix::ffi::OsStrExt;
+        let pstr = std::path::Path::new(std::ffi::OsStr::from_bytes(p));
+        let cand = Candidate::new(pstr);
+        let got = w.matcher.is_match_candidate(&cand);
+        let want = ms.iter().any(|m| m.matcher.is_match_candidate(&cand));
+        rep.evaluations += 1;
+        if got {
+            both.0 = true;
+        } else {
+            both.1 = true;
+        }
+        if got != want {
+            rep.violation(
+                "C12:alternates:not-the-union-of-its-branches",
+                format!(
+                    "glob {:?} (opts {}) {} path {:?}, but its branches {:?} {}",
+                    whole,
+                    opts.to_json(),
+                    if got { "matches" } else { "does not match" },
+                    esc(p),
+                    members,
+                    if want { "do (one of them)" } else { "do not" }
+                ),
+                || json!({"kind": "alternates", "glob": whole, "members": members,
+                          "opts": opts.to_json(), "path": esc(p)}),
+            );
+            break;
+        }
+    }
+    if both.0 && both.1 {
+        rep.nontrivial(fnv_parts(&[whole.as_bytes(), format!("{:?}", opts).as_bytes()]));
+    }
+}
+
 /// Sets built from *related* globs: every substring of a base word as a
 /// whole-path literal, prefix (`s*`, `s/**`), suffix (`*s`), basename
 /// (`**/s`) and extension (`*.s`) glob. Literals that contain or overlap each
@@ -638,6 +721,9 @@ pub fn run(ctx: &Ctx) -> Report {
             ps.push(random_path(rng));
         }
         check_block(&comp, &ps, true, rep);
+        for _ in 0..(if cfg!(miri) { 1 } else { 4 }) {
+            check_alternates(rng, &ps, rep);
+        }
         rep.sample(|| {
             json!({
                 "set": comp.iter().map(|c| c.text.clone()).collect::<Vec<_>>(),
@@ -654,7 +740,29 @@ pub fn run(ctx: &Ctx) -> Report {
 pub fn replay(v: &Value) -> Report {
     let mut rep = Report::new();
     let path = unesc(v["path"].as_str().unwrap_or(""));
-    if v["kind"] == "model" {
+    if v["kind"] == "alternates" {
+        let opts = Opts::from_json(&v["opts"]);
+        let w = compile(v["glob"].as_str().unwrap_or(""), opts);
+        let ms: Vec<Compiled> = v["members"]
+            .as_array()
+            .map(|a| a.iter().filter_map(|m| compile(m.as_str().unwrap_or(""), opts)).collect())
+            .unwrap_or_default();
+        if let Some(w) = w {
+            use std::os::unix::ffi::OsStrExt;
+            let pstr = std::path::Path::new(std::ffi::OsStr::from_bytes(&path));
+            let cand = Candidate::new(pstr);
+            let got = w.matcher.is_match_candidate(&cand);
+            let want = ms.iter().any(|m| m.matcher.is_match_candidate(&cand));
+            rep.evaluations += 1;
+            if got != want {
+                rep.violation(
+                    "C12:alternates:not-the-union-of-its-branches",
+                    format!("glob {:?}: {} but branches: {}", w.text, got, want),
+                    || v.clone(),
+                );
+            }
+        }
+    } else if v["kind"] == "model" {
         let opts = Opts::from_json(&v["opts"]);
         if let Some(c) = compile(v["glob"].as_str().unwrap(), opts) {
             check_block(&[c], &[path], true, &mut rep);
